@@ -9,7 +9,9 @@
 /* The library's own definition lives in Lib/utils/mem.c with initialiser {malloc,calloc,free}; taking
  * the address of CBMC's calloc model crashes goto-instrument, and --dfcc havocs statics anyway, so the
  * units define the object here and every harness installs the stubs explicitly (v_base_init). */
+#ifndef V_REAL_UTILS_MEM
 m_memhook_t memhook;
+#endif
 m_logger libmodule_logger;
 
 /* ghost allocator log */
